@@ -70,6 +70,30 @@ def sign_model(an, year, assume=()):
     return cdefs, nn, wit, mk
 
 
+_NN_CACHE = {}
+
+
+def nn_year(an, y):
+    """lines proven non-negative for the year (facts for the blank-coverage proofs)"""
+    k = (id(an), y)
+    if k not in _NN_CACHE:
+        _NN_CACHE[k] = sign_model(an, y)[1]
+    return _NN_CACHE[k]
+
+
+def _zero_tolerance(g):
+    """stored amounts are whole cents: a comparison with 0.001 is a comparison with zero"""
+    c = g[0]
+    if isinstance(c, E) and c.op == 'lt' and len(c.args) == 2:
+        a, b = c.args
+        if isinstance(a, float) and abs(abs(a) - 0.001) < 1e-12:
+            a = 0.0
+        if isinstance(b, float) and abs(abs(b) - 0.001) < 1e-12:
+            b = 0.0
+        c = E('lt', a, b, ty='bool')
+    return (c,) + tuple(g[1:])
+
+
 def value_paths(d):
     out = []
     for p in d.paths:
@@ -97,28 +121,11 @@ def guard_of(p, a, b):
     return None
 
 
-def check(tree, rep, tier='quick', seed=0):
-    rep.explanation = ('(1) Balance identities decided on the linear normal forms of all paths: overpayment and amount owed are the two signed halves of '
-                       'total payments minus total tax, produced under complementary guards (so at most one is positive and their difference is exactly '
-                       'payments minus tax), refund plus amount applied equals the overpayment; likewise for the NC return. (2) Non-negativity under the premise '
-                       'that amount and count inputs are non-negative, in two stages: abstract interpretation in a sign domain with symbolic upper bounds '
-                       '(min(a,b) <= a, x*r <= x for a rate or a ratio line capped at 1, a-b >= 0 under a guard a>b or when a bounds b) as a greatest fixed '
-                       'point over the line graph; then relational proofs for the rest - line definitions unfolded path by path, min / max / floor terms split '
-                       'into linear cases, every leaf system refuted by exact Fourier-Motzkin elimination. Every line of the frozen list '
-                       'sa/data/nonneg_lines.json (provable on the confirmed baseline) must stay provable (R15.2); the credit lines of nonneg_required.json must '
-                       'be provable too and are reported at the line where the sign is lost, not at the lines that merely read it (R15.3).')
-    rep.rule_text = 'obligation = one (year, identity) for R15.1, one (year, line) of the frozen non-negative list for R15.2, one (year, required credit line) for R15.3'
-    rep.exhaustive = True
-    rep.assumptions = ['amount (float) and count (integer) inputs are >= 0 (the premise of the property)',
-                       'figure_tax is non-negative on its domain (decided by C07)',
-                       'lines whose sign depends on adjusted gross income (which may legitimately be negative), Form 8606 lines needing mutually consistent inputs and 2021 Schedule 8812 Part III lines that are non-negative only where demanded are NOT armed (listed in the evidence with the expression that loses the sign); rounding of stored values is not modelled']
-    an = get_analysis(tree)
+def balance_identities(an, rep):
+    """R15.1 for every year -> number of identities checked"""
     ids = load_data('balance_identities.json')
-    frozen = load_data('nonneg_lines.json')
-    required = load_data('nonneg_required.json')
-    n_id = n_nn = n_req = 0
+    n_id = 0
     for y in an.cat.years:
-        # ---- R15.1
         for e in ids:
             fr = an.cat.find(y, e['form'])
             if fr is None:
@@ -149,6 +156,21 @@ def check(tree, rep, tier='quick', seed=0):
                     bad.append(f'produced without requiring line {e["minuend"]} > line {e["subtrahend"]}')
                 if e['when'] == 'not-less' and g not in ('more', 'not-less'):
                     bad.append(f'produced without requiring line {e["minuend"]} >= line {e["subtrahend"]}')
+            # the line is blank only where the other half applies: every path that produces no value implies minuend <= subtrahend
+            if not bad:
+                from ..relational import Prover
+                for p in d.paths:
+                    if p.outcome.kind != 'ret':
+                        continue
+                    v = p.outcome.value
+                    if isinstance(v, E) or v not in BLANK:
+                        continue
+                    pr = Prover({}, nn_year(an, y), frozenset())
+                    diff = E('sub', E('v', f'{fr.name}.{e["subtrahend"]}', ty='float'), E('v', f'{fr.name}.{e["minuend"]}', ty='float'), ty='float')
+                    if not pr.prove_nonneg(diff, [_zero_tolerance(g) for g in p.guards], None):
+                        bad.append(f'is left blank on a path that does not imply line {e["minuend"]} <= line {e["subtrahend"]} '
+                                   f'({" and ".join(("" if g[1] else "not ") + repr(g[0])[:60] for g in p.guards[-3:])}): the two halves no longer add up to the difference')
+                        break
             if e.get('complement_of') and not bad:
                 other = an.defs.get((y, fr.name, e['complement_of']))
                 og = {guard_of(p, b, a) for p in value_paths(other)} if other is not None else set()
@@ -159,6 +181,31 @@ def check(tree, rep, tier='quick', seed=0):
                     bad.append(f'its guard {sorted(map(str, mg))} and the guard of line {e["complement_of"]} {sorted(map(str, og))} are not complementary: both or neither could be positive')
             rep.ob('R15.1', key, not bad, f'{y} {e["form"]} line {e["line"]} ({e["what"]}): ' + '; '.join(bad[:2]), d.where,
                    sample={'identity': e['what'], 'line': key})
+    return n_id
+
+
+def check(tree, rep, tier='quick', seed=0):
+    rep.explanation = ('(1) Balance identities decided on the linear normal forms of all paths: overpayment and amount owed are the two signed halves of '
+                       'total payments minus total tax, produced under complementary guards (so at most one is positive and their difference is exactly '
+                       'payments minus tax), refund plus amount applied equals the overpayment; likewise for the NC return. (2) Non-negativity under the premise '
+                       'that amount and count inputs are non-negative, in two stages: abstract interpretation in a sign domain with symbolic upper bounds '
+                       '(min(a,b) <= a, x*r <= x for a rate or a ratio line capped at 1, a-b >= 0 under a guard a>b or when a bounds b) as a greatest fixed '
+                       'point over the line graph; then relational proofs for the rest - line definitions unfolded path by path, min / max / floor terms split '
+                       'into linear cases, every leaf system refuted by exact Fourier-Motzkin elimination. Every line of the frozen list '
+                       'sa/data/nonneg_lines.json (provable on the confirmed baseline) must stay provable (R15.2); the credit lines of nonneg_required.json must '
+                       'be provable too and are reported at the line where the sign is lost, not at the lines that merely read it (R15.3).')
+    rep.rule_text = 'obligation = one (year, identity) for R15.1, one (year, line) of the frozen non-negative list for R15.2, one (year, required credit line) for R15.3'
+    rep.exhaustive = True
+    rep.assumptions = ['amount (float) and count (integer) inputs are >= 0 (the premise of the property)',
+                       'figure_tax is non-negative on its domain (decided by C07)',
+                       'lines whose sign depends on adjusted gross income (which may legitimately be negative), Form 8606 lines needing mutually consistent inputs and 2021 Schedule 8812 Part III lines that are non-negative only where demanded are NOT armed (listed in the evidence with the expression that loses the sign); rounding of stored values is not modelled']
+    an = get_analysis(tree)
+    ids = load_data('balance_identities.json')
+    frozen = load_data('nonneg_lines.json')
+    required = load_data('nonneg_required.json')
+    n_nn = n_req = 0
+    n_id = balance_identities(an, rep)
+    for y in an.cat.years:
         # ---- R15.2
         cdefs, nn, wit, mk = sign_model(an, y)
         listed = [k for k in frozen.get(str(y), [])]
